@@ -153,8 +153,8 @@ fn finish_case(e: &mut Ent, insn: Insn, er: [u32; 8], ccr: u8, patches: Vec<(u32
             let k = e.below(code.len() as u32);
             let cand = a.wrapping_sub(k) & !1;
             let len = code.len() as u32;
-            let fits = |lo: u32, hi: u32| cand >= lo && cand + len + 2 <= hi + 1;
-            if (fits(RAM_LO, RAM_HI) || fits(DRAM_LO, DRAM_HI)) && a - cand < len {
+            let fits = |lo: u32, hi: u32| cand >= lo && cand as u64 + len as u64 + 2 <= hi as u64 + 1;
+            if (fits(RAM_LO, RAM_HI) || fits(DRAM_LO, DRAM_HI)) && cand <= a && a - cand < len {
                 pc = cand;
                 patches.retain(|(pa, _)| *pa != a);
                 value = code[(a - cand) as usize];
